@@ -3,6 +3,8 @@ import TracklibVerif.Lemmas.SimplifyTrack
 import TracklibVerif.Lemmas.SimplifyVwOrd
 import TracklibVerif.Lemmas.SimplifyVwAll
 import TracklibVerif.Lemmas.SimplifyVwAny
+import TracklibVerif.Lemmas.SimplifyVwTie
+import TracklibVerif.Lemmas.SimplifyVwFirst
 import TracklibVerif.Lemmas.SimplifyOrd
 import Mathlib.Tactic.Ring
 import Mathlib.Analysis.Real.Sqrt
@@ -18,7 +20,10 @@ on the `Track` **object**: feature rows of the observations, feature dict, `uid`
 column, `Track.__add__` and `removeObs` of C04. T8/T9 tie the second to the first. The same file models the attribute
 `no_data_value` that the readers set (`simplifyN`: never read; `None` on a Douglas–Peucker result, copied by Visvalingam) and
 `Network.simplify` (`netSimplify`: `simplify` on every edge geometry). T12 (`vw_any`) is Visvalingam with **no** hypothesis on
-the areas.
+the areas. A third model file, `Model/SimplifyTie.lean`, is the freedom the statement leaves to Visvalingam — which of several equally
+small triangles goes first (`VwAnyResult`, `visvalingamAll`): T13 proves the property for **every** such run, that the code's run is
+one of them and that the enumeration the correspondence check accepts is sound (`Lemmas/SimplifyVwTie.lean`). T14
+(`Lemmas/SimplifyVwFirst.lean`) characterises, pass by pass, when the first observation survives a mixed column.
 
 A fix is `⟨tag, x, y⟩`; *sublist* is about fixes (tag included), i.e. about observations.
 `douglasPeucker … = some out` means "the call returns `out`"; `none` is Python's unbounded recursion.
@@ -309,6 +314,93 @@ theorem net_simplify_each (sqrt : α → α) (big tol : α) (mode : Int) (G O : 
         cases h
         exact List.Forall₂.cons hg (ih os hr)
 
+/-! #### T13: the freedom left by ties in Visvalingam (`Model/SimplifyTie.lean`) -/
+
+/-- T13 (sub-sequence, **no hypothesis at all**): whichever of several equally small triangles is eliminated at each pass
+(`VwAnyResult`: the results of all such runs; the statement of C16 leaves the choice free, the code takes the first), the result
+is a sub-sequence of the input observations in their original order. Any scalar type, any areas, any tolerance. -/
+theorem vw_any_tiebreak_sublist (big eps : α) (L out : List (Fix α)) (h : VwAnyResult big eps L out) : out.Sublist L := by
+  obtain ⟨S', r, _, e⟩ := h
+  have := r.sublist
+  rw [vwInit_map_fst] at this
+  rw [e]; exact this
+
+/-- T13 (ends): under T6's hypothesis (areas below ARGMIN's initial minimum `+inf`: finite areas) **every** such run keeps the
+first and the last observation, and at least two observations. Any scalar type, any tolerance; closed loops, repeated positions
+(many equal areas: the case where the runs differ most) included. -/
+theorem vw_any_tiebreak (big eps : α) (L out : List (Fix α)) (h2 : 2 ≤ L.length)
+    (hbig : ∀ a b c, a ∈ L → b ∈ L → c ∈ L → areaFix a b c < big) (h : VwAnyResult big eps L out) :
+    out.Sublist L ∧ out.head? = L.head? ∧ out.getLast? = L.getLast? ∧ 2 ≤ out.length := by
+  refine ⟨vw_any_tiebreak_sublist big eps L out h, ?_⟩
+  obtain ⟨S', r, _, e⟩ := h
+  obtain ⟨r1, _, r3, r4⟩ := r.spec L hbig (vwInit_inv big L hbig h2) (vwInit_cons L)
+  rw [vwInit_map_fst] at r3 r4
+  subst e
+  exact ⟨r3, r4, by rw [List.length_map]; exact r1.len⟩
+
+/-- T13 without hypothesis (T12 for **every** run): whatever the areas (infinite, NaN, mixed) and whichever of the equally small
+triangles goes first at each pass, the result is a sub-sequence of the input observations, the **last** observation is kept and a
+track of two or more observations keeps at least two. (A run is a finite sequence of passes by construction: each removes one
+observation.) Any scalar type. -/
+theorem vw_any_tiebreak_any_areas (big eps : α) (L out : List (Fix α)) (h1 : 1 ≤ L.length) (h : VwAnyResult big eps L out) :
+    out.Sublist L ∧ out.getLast? = L.getLast? ∧ (2 ≤ L.length → 2 ≤ out.length) := by
+  refine ⟨vw_any_tiebreak_sublist big eps L out h, ?_⟩
+  obtain ⟨S', r, _, e⟩ := h
+  obtain ⟨_, r2, r3⟩ := r.any (vwInit_lastNaN L h1)
+  have hlen : (vwInit L).length = L.length := by
+    have := congrArg List.length (vwInit_map_fst L)
+    rwa [List.length_map] at this
+  rw [vwInit_map_fst] at r2
+  subst e
+  exact ⟨r2, fun h2 => by rw [List.length_map]; exact r3 (by omega)⟩
+
+/-- T13 (the code's own run is one of them): what `visvalingam` returns — ARGMIN's first minimum at every pass — is a
+`VwAnyResult`. No hypothesis; any scalar type. -/
+theorem vw_own_run_is_tiebreak_run (big eps : α) (L : List (Fix α)) : VwAnyResult big eps L (visvalingam big eps L) := by
+  refine ⟨vwLoop big (eps * eps) L.length (vwInit L), vwLoop_reach _ _ _ _, ?_, rfl⟩
+  rw [vwNext_nil_iff]
+  exact (vw_any big eps L).2.2.2
+
+/-- T13 (the enumeration the correspondence check uses is sound): every result that `visvalingamAll` returns — the driver's
+level-by-level enumeration, states holding the same observations merged, given up (`none`) beyond `cap` states per level — is a
+`VwAnyResult`: the check accepts a different result of the implementation only if it is one of the runs T13 is about. -/
+theorem vw_all_levels_sound (big eps : α) (cap : Nat) (L : List (Fix α)) (R : List (List (Fix α)))
+    (h : visvalingamAll big eps cap L = some R) : ∀ out ∈ R, VwAnyResult big eps L out := by
+  unfold visvalingamAll at h
+  cases hR : vwAllLevels big (eps * eps) cap (L.length + 1) [vwInit L] [] with
+  | none => rw [hR] at h; cases h
+  | some R0 =>
+    rw [hR] at h
+    simp only [Option.map_some, Option.some.injEq] at h
+    subst h
+    intro out ho
+    obtain ⟨S, hS, e⟩ := List.mem_map.mp ho
+    obtain ⟨a, b⟩ := vwAllLevels_sound big (eps * eps) cap (vwInit L) (L.length + 1) [vwInit L] [] R0
+      (fun S hS => by rw [List.mem_singleton.mp hS]; exact VReach.refl _) (fun S hS => by cases hS) hR S hS
+    exact ⟨S, a, b, e.symm⟩
+
+/-- T14 (mixed columns — some triangle areas finite, some infinite or NaN; the characterisation that round 1 left open, at the level
+of the passes): on a track of pairwise different observations (tagged fixes are), for any areas, any tolerance, any scalar type,
+**the first observation is kept if and only if every pass of the loop finds a minimum** — `AllHit`: at every pass some entry of the
+`'@aire'` column is a number below ARGMIN's initial minimum `+inf`. (Then ARGMIN answers an index `>= 1` and the NaN entry of the
+first observation is never rewritten; otherwise it answers its default `0`, `NaN > eps` is `False`, and the first observation goes.)
+T6 is the case where all areas are below `big` (every pass then finds a minimum), T6' the case where none is. -/
+theorem vw_first_kept_iff (big eps : α) (L : List (Fix α)) (h1 : 1 ≤ L.length) (hn : L.Nodup) :
+    (visvalingam big eps L).head? = L.head? ↔ AllHit big (eps * eps) L.length (vwInit L) := by
+  have hf : FirstNaN (vwInit L) := ⟨L[0], by rw [vwInit_getElem?, List.getElem?_eq_getElem (by omega)]; rfl⟩
+  have hl := vwInit_lastNaN L h1
+  have hn' : ((vwInit L).map (·.1)).Nodup := by rw [vwInit_map_fst]; exact hn
+  constructor
+  · intro h
+    by_contra hna
+    have := vwLoop_first_lost big (eps * eps) L.length (vwInit L) hf hl hn' hna
+    rw [vwInit_map_fst] at this
+    exact this h
+  · intro h
+    have := vwLoop_first_kept big (eps * eps) L.length (vwInit L) hf hl h
+    rw [vwInit_map_fst] at this
+    exact this
+
 /-- a one-fix track is returned unchanged by both algorithms -/
 theorem single_fix (sqrt : α → α) (big eps : α) (p : Fix α) :
     douglasPeucker sqrt eps [p] = some [p] ∧ visvalingam big eps [p] = [p] := by
@@ -385,6 +477,19 @@ theorem vw_threshold (big eps : α) (L : List (Fix α)) (h2 : 2 ≤ L.length)
   exact vwStop_above big (eps * eps) L _ (vwLoop_spec big (eps * eps) L hbig L.length (vwInit L) hi).1
     (vwLoop_cons big (eps * eps) L hbig L.length (vwInit L) hi (vwInit_cons L))
     (vwLoop_stops big (eps * eps) L hbig L.length (vwInit L) hi hlen) i p0 p1 p2 h0 e0 e1 e2
+
+/-- T10 for **every** run (T13): whichever of several equally small triangles is eliminated at each pass, every interior fix of the
+result spans with its two neighbours in the result a triangle of (computed) area `> eps²`. Any arithmetic on a linear order; T6's
+hypothesis. So all the results the correspondence check accepts honour the tolerance in Visvalingam's sense. -/
+theorem vw_any_tiebreak_threshold (big eps : α) (L out : List (Fix α)) (h2 : 2 ≤ L.length)
+    (hbig : ∀ a b c, a ∈ L → b ∈ L → c ∈ L → areaFix a b c < big) (h : VwAnyResult big eps L out)
+    (i : Nat) (p0 p1 p2 : Fix α) (h0 : 0 < i)
+    (e0 : out[i - 1]? = some p0) (e1 : out[i]? = some p1) (e2 : out[i + 1]? = some p2) :
+    eps * eps < areaFix p0 p1 p2 := by
+  obtain ⟨S', r, hn, e⟩ := h
+  obtain ⟨r1, r2, _, _⟩ := r.spec L hbig (vwInit_inv big L hbig h2) (vwInit_cons L)
+  subst e
+  exact vwStop_above big (eps * eps) L S' r1 r2 ((vwNext_nil_iff _ _ _).mp hn) i p0 p1 p2 h0 e0 e1 e2
 
 end totalOrderAnyArithmetic
 
@@ -643,5 +748,43 @@ example : (netSimplify sqrtTab2 (10 ^ 300) [demoTrkN, demoTrkN] 3 2).map List.le
 /-- T12 at work outside T6's hypothesis (`big = 1`, the only area is 8): the first observation is lost (T6'), the last one and two
 observations are kept -/
 example : (visvalingam (1 : Rat) 1 [⟨0, 0, 0⟩, ⟨1, 2, 4⟩, ⟨2, 4, 0⟩]).getLast? = some ⟨2, 4, 0⟩ := by decide +kernel
+
+/-! ### T13: ties in Visvalingam -/
+
+/-- a zig-zag: the three interior fixes span triangles of area 1 each (tolerance 1, threshold 1 on areas). The code eliminates
+fix 1 (ARGMIN's first minimum), then fix 2 (area 1 with its new neighbours), and stops at fix 3, whose triangle now has area 2 … -/
+def tieTrack : List (Fix Rat) := [⟨0, 0, 0⟩, ⟨1, 1, 1⟩, ⟨2, 2, 0⟩, ⟨3, 3, 1⟩, ⟨4, 4, 0⟩]
+
+example : visvalingam (10 ^ 300 : Rat) 1 tieTrack = [⟨0, 0, 0⟩, ⟨3, 3, 1⟩, ⟨4, 4, 0⟩] := by decide +kernel
+
+/-- … with another choice among the equal areas the run ends elsewhere: three different results, each a sub-sequence with both ends
+whose interior fixes span an area > 1 (T13) -/
+example : visvalingamAll (10 ^ 300 : Rat) 1 8 tieTrack =
+    some [[⟨0, 0, 0⟩, ⟨3, 3, 1⟩, ⟨4, 4, 0⟩], [⟨0, 0, 0⟩, ⟨1, 1, 1⟩, ⟨4, 4, 0⟩], [⟨0, 0, 0⟩, ⟨4, 4, 0⟩]] := by decide +kernel
+
+/-- a dwell: fixes 1 and 2 are at the same place, both triangles have area 0 (tolerance 1/2, threshold 1/4). Whichever goes first, the
+other one then spans a triangle of area 1/2 with the ends and stays: two different results, both sub-sequences with both ends -/
+def tieTrack2 : List (Fix Rat) := [⟨0, 0, 0⟩, ⟨1, 0, 1⟩, ⟨2, 0, 1⟩, ⟨3, 1, 0⟩]
+
+example : visvalingamAll (10 ^ 300 : Rat) (1 / 2) 8 tieTrack2 =
+    some [[⟨0, 0, 0⟩, ⟨2, 0, 1⟩, ⟨3, 1, 0⟩], [⟨0, 0, 0⟩, ⟨1, 0, 1⟩, ⟨3, 1, 0⟩]] := by decide +kernel
+
+/-- the code's own run (ARGMIN: the first minimum) is the first of them -/
+example : visvalingam (10 ^ 300 : Rat) (1 / 2) tieTrack2 = [⟨0, 0, 0⟩, ⟨2, 0, 1⟩, ⟨3, 1, 0⟩] := by decide +kernel
+
+/-- `cap` at work: a level with more states than `cap` gives up -/
+example : visvalingamAll (10 ^ 300 : Rat) (1 / 2) 1 tieTrack2 = none := by decide +kernel
+
+/-! ### T14: a mixed column -/
+
+/-- `big = 5`: fix 1 spans an area 8 (not below `big`: "infinite"), fixes 2 and 3 areas 3 and 1; tolerance² = 4. First pass: a minimum is
+found (fix 3, area 1), fix 3 goes; second pass: fix 2 (recomputed: area 4 ≤ 4) goes, fix 1 is recomputed (area 12, not below `big`); third
+pass: no minimum — ARGMIN answers 0 and the **first** observation is removed, although the column was mixed at the start -/
+example : visvalingam (5 : Rat) 2 [⟨0, 0, 0⟩, ⟨1, 2, 4⟩, ⟨2, 4, 0⟩, ⟨3, 5, 1⟩, ⟨4, 6, 0⟩] = [⟨1, 2, 4⟩, ⟨4, 6, 0⟩] := by decide +kernel
+
+/-- … and with tolerance² = 1/4 the smallest number of the column (1) exceeds it at the first pass: `break`, every pass (none was made) found
+a minimum, the first observation is kept -/
+example : visvalingam (5 : Rat) (1 / 2) [⟨0, 0, 0⟩, ⟨1, 2, 4⟩, ⟨2, 4, 0⟩, ⟨3, 5, 1⟩, ⟨4, 6, 0⟩] =
+    [⟨0, 0, 0⟩, ⟨1, 2, 4⟩, ⟨2, 4, 0⟩, ⟨3, 5, 1⟩, ⟨4, 6, 0⟩] := by decide +kernel
 
 end TV.C16
